@@ -22,6 +22,10 @@ def gen_response(r, vid, big):
         hs.append((k, v))
     if r.random() < 0.08:
         hs.append(("x-obs", b"caf\xe9 \xff\x80"))
+    if r.random() < 0.04:
+        # a large header block (several multi-KB token headers, e.g. signed tokens): 12-60 KB of response head
+        for i in range(r.randrange(2, 10)):
+            hs.append(("x-token-%d" % i, gen_http.token(r, 6000)))
     nobody = status in (204, 304)
     size = 0 if nobody else r.choice([0, 1, 17, 1000, r.randrange(0, 70000), r.randrange(0, 1 << 20) if big else 5000])
     body = bytes(r.getrandbits(8) for _ in range(min(size, 4096)))
